@@ -84,7 +84,7 @@ def oracle(seed, tier):
                     bad("background %s block is not zero" % {2: "composition", 3: "grains", 5: "velocity"}[pr[0]])
         if len(samples) < 3:
             samples.append({"world": path, "point": p, "depth": d, "answer": out[i][:200], "expected_T": expT})
-    return {"violations": viol[:20], "summary": {"cases": cases, "violations": len(viol), "nontrivial": nontriv}, "samples": samples}
+    return {"violations": trim_violations(viol, 20), "summary": {"cases": cases, "violations": len(viol), "nontrivial": nontriv}, "samples": samples}
 
 
 def replay(rp):
